@@ -597,7 +597,10 @@ class Engine:
                 key = (mi.relpath, name)
                 if key not in self._modconst:
                     s0 = St({'__mod__': mi}, {}, [])
-                    self._modconst[key] = self.ev(mi.assigns[name], s0)
+                    try:
+                        self._modconst[key] = self.ev(mi.assigns[name], s0)
+                    except Unsupported:
+                        self._modconst[key] = Builtin('opaque:' + name)      # e.g. numba type objects: only passed around
                     self.const_heap.update(s0.heap)       # module-level constant tables
                 return self._modconst[key]
             if name in mi.aliases:
@@ -1517,10 +1520,14 @@ class Engine:
             self.specmode += 1
             try:
                 args = [self.ev(a, st) for a in call.args]
+                args = [self.tosv(a) if isinstance(a, (int, float, bool)) else a for a in args]
             finally:
                 self.specmode -= 1
             for inst in uf(*args):
                 st.pc.append(inst)
+            for inst in self.pending_defs:          # definitions of ghost terms created inside the unfolder
+                st.pc.append(inst)
+            self.pending_defs = []
             return
         if h.startswith('forall_intro '):
             # prove cond ==> body for fresh constants (definitions of ghost terms unfold on them), then assume the
@@ -1751,6 +1758,8 @@ class Engine:
                 v = SV(c, v.ty)
             st.env[t.id] = v
         elif isinstance(t, (ast.Tuple, ast.List)):
+            if isinstance(v, Arr) and v.ndim == 1 and conc_int(v.shape[0]) == len(t.elts):
+                v = [SV(self.sel(st, v, [z3.IntVal(k)]), v.ety) for k in range(len(t.elts))]       # unpacking a short array row
             if not isinstance(v, (tuple, list)) or len(v) != len(t.elts):
                 raise Unsupported('tuple unpacking mismatch')
             for e, x in zip(t.elts, v):
